@@ -63,7 +63,7 @@ enum Ev {
 
 type Log = Rc<RefCell<Vec<Ev>>>;
 
-async fn test_task(pre: Vec<(R, Cond)>, script: Vec<TOp>, log: Log, abort: Rc<std::cell::Cell<bool>>) {
+async fn test_task(pre: Vec<(R, Cond)>, script: Vec<TOp>, log: Log, abort: Rc<std::cell::Cell<bool>>, panic_at_end: bool) {
     let mut barriers: Vec<Option<Barrier<u8>>> = vec![];
     let mut handles: VecDeque<Triggered<u8>> = VecDeque::new();
     // barriers that exist before anything else runs
@@ -121,6 +121,13 @@ async fn test_task(pre: Vec<(R, Cond)>, script: Vec<TOp>, log: Log, abort: Rc<st
             TOp::AbortSource0 => abort.set(true),
         }
     }
+    if panic_at_end {
+        // the test gives up with a panic: every barrier and handle it holds is dropped by
+        // the unwinding (the thread survives, the harness catches the panic)
+        yield_now().await;
+        log.borrow_mut().push(Ev::DropBarrier(usize::MAX));
+        panic!("the test task gives up");
+    }
     // keep everything it still holds until the harness lets go of this task
     std::future::pending::<()>().await;
 }
@@ -143,6 +150,24 @@ async fn source(s: usize, vals: Vec<(u8, bool)>, log: Log) {
 /// `part` 0: small programs, every interleaving. `part` 1: registry-heavy programs (2-3
 /// barriers up front, longer scripts), schedules within a preemption (deviation) bound.
 pub fn scenario(ch: &mut Chooser, thorough: bool, part: u8) -> Exec {
+    // a test task that ends by panicking drops its barriers during unwinding; the registry is
+    // a thread-local, so such an execution gets a thread of its own (nothing it might leave
+    // behind can reach another execution)
+    let panic_at_end = part == 1 && ch.dev_flag("test_task_panics_at_the_end_of_its_script");
+    if panic_at_end {
+        return std::thread::scope(|sc| {
+            std::thread::Builder::new()
+                .stack_size(8 << 20)
+                .spawn_scoped(sc, || scenario_on_this_thread(ch, thorough, part, true))
+                .expect("spawn")
+                .join()
+                .unwrap_or_else(|_| Exec { outcome: 0, violation: Some(Violation::new("harness-panic", "the scenario thread panicked".into())), features: vec![] })
+        });
+    }
+    scenario_on_this_thread(ch, thorough, part, false)
+}
+
+fn scenario_on_this_thread(ch: &mut Chooser, thorough: bool, part: u8, panic_at_end: bool) -> Exec {
     // ---- programs
     let tmenu: Vec<TOp> = vec![
         TOp::Build(R::Noop, Cond::Eq1),
@@ -177,7 +202,7 @@ pub fn scenario(ch: &mut Chooser, thorough: bool, part: u8) -> Exec {
     let mut ex = Executor::new();
     let abort = Rc::new(std::cell::Cell::new(false));
     let mut aborted0 = false;
-    let t_id = ex.spawn(99, test_task(pre.clone(), script.clone(), log.clone(), abort.clone()));
+    let t_id = ex.spawn(99, test_task(pre.clone(), script.clone(), log.clone(), abort.clone(), panic_at_end));
     let mut src_ids = vec![];
     for (s, p) in progs.iter().enumerate() {
         src_ids.push(ex.spawn(s as u32, source(s, p.clone(), log.clone())));
@@ -203,6 +228,9 @@ pub fn scenario(ch: &mut Chooser, thorough: bool, part: u8) -> Exec {
             if let Some(s) = src_ids.iter().position(|&x| x == id) {
                 log.borrow_mut().push(Ev::Panicked(s));
                 feats.push("panic-reaction");
+            } else if panic_at_end && matches!(log.borrow().last(), Some(Ev::DropBarrier(usize::MAX))) {
+                // scripted: the unwinding has dropped everything the test held
+                feats.push("test-task-unwound");
             } else {
                 violation = Some(Violation::new("test-task-panic", "the test task itself panicked".into()));
                 break;
